@@ -9,6 +9,7 @@
 mod actors;
 mod analysis;
 mod sgen;
+mod census;
 mod interp;
 mod log;
 mod minimise;
